@@ -41,6 +41,8 @@ const (
 	KFloatSlice  Kind = "[]float64"
 	KDuration    Kind = "duration"
 	KDurSlice    Kind = "[]duration"
+	KDurPtr      Kind = "*duration"
+	KMapFS       Kind = "map[float64]string"
 	KMapSS       Kind = "map[string]string"
 	KMapSI       Kind = "map[string]int"
 	KMapIS       Kind = "map[int]string"
@@ -53,6 +55,8 @@ const (
 	KFunc0       Kind = "func()"
 	KFuncS       Kind = "func(string)"
 	KFuncI       Kind = "func(int)"
+	KFunc0E      Kind = "func() error"
+	KFuncSE      Kind = "func(string) error"
 )
 
 // Upper is a custom (un)marshaler type. The value denoted by text v is "U:"+v
@@ -147,6 +151,8 @@ var kindTypes = map[Kind]reflect.Type{
 	KFloatSlice:  reflect.TypeOf([]float64(nil)),
 	KDuration:    reflect.TypeOf(time.Duration(0)),
 	KDurSlice:    reflect.TypeOf([]time.Duration(nil)),
+	KDurPtr:      reflect.TypeOf((*time.Duration)(nil)),
+	KMapFS:       reflect.TypeOf(map[float64]string(nil)),
 	KMapSS:       reflect.TypeOf(map[string]string(nil)),
 	KMapSI:       reflect.TypeOf(map[string]int(nil)),
 	KMapIS:       reflect.TypeOf(map[int]string(nil)),
@@ -159,6 +165,8 @@ var kindTypes = map[Kind]reflect.Type{
 	KFunc0:       reflect.TypeOf((func())(nil)),
 	KFuncS:       reflect.TypeOf((func(string))(nil)),
 	KFuncI:       reflect.TypeOf((func(int))(nil)),
+	KFunc0E:      reflect.TypeOf((func() error)(nil)),
+	KFuncSE:      reflect.TypeOf((func(string) error)(nil)),
 }
 
 func (k Kind) Type() reflect.Type {
@@ -182,7 +190,7 @@ func (k Kind) Elem() Kind {
 		return Kind(string(k)[2:])
 	case k.IsPtr():
 		return Kind(string(k)[1:])
-	case k == KFuncS:
+	case k == KFuncS || k == KFuncSE:
 		return KString
 	case k == KFuncI:
 		return KInt
@@ -198,13 +206,15 @@ func (k Kind) MapKV() (Kind, Kind) {
 		return KString, KInt
 	case KMapIS:
 		return KInt, KString
+	case KMapFS:
+		return KFloat64, KString
 	}
 	panic("not a map kind")
 }
 
 // IsFlag: the option takes no argument (documented: bool v.s. other type).
 func (k Kind) IsFlag() bool {
-	return k == KBool || k == KBoolSlice || k == KBoolPtr || k == KFunc0
+	return k == KBool || k == KBoolSlice || k == KBoolPtr || k == KFunc0 || k == KFunc0E
 }
 
 // IsSignedNum: signed numeric option (accepts a separate negative number).
@@ -242,6 +252,7 @@ type Opt struct {
 	Unquote     string   `json:"unquote,omitempty"`
 	Initial     []string `json:"initial,omitempty"`
 	RawTag      *string  `json:"rawtag,omitempty"` // used verbatim when set
+	CbErr       bool     `json:"cberr,omitempty"`  // callback kinds returning error: the callback fails
 }
 
 func (o *Opt) IsOptional() bool { return o.Optional != "" }
@@ -278,6 +289,9 @@ type Positional struct {
 	Field    string   `json:"field"`
 	Required string   `json:"required,omitempty"`
 	Args     []PosArg `json:"args"`
+	// Split > 0: the arguments are declared in two positional-args structs of the
+	// same command, the first holding Args[:Split]
+	Split int `json:"split,omitempty"`
 }
 
 type Cmd struct {
@@ -502,6 +516,9 @@ type ExecEntry struct {
 	NilCmd  bool     `json:"nil_cmd,omitempty"`
 }
 
+// ErrCallbackSentinel is what a failing option callback returns.
+var ErrCallbackSentinel = fmt.Errorf("sentinel: option callback failed")
+
 type ExecCmd struct {
 	id string
 	b  *Built
@@ -638,7 +655,14 @@ func (bl *builder) groupType(g *Group, host *Cmd) reflect.Type {
 			if host.Pos.Required != "" {
 				tagKV(&sb, "required", host.Pos.Required)
 			}
-			fs = append(fs, reflect.StructField{Name: host.Pos.Field, Type: posStructType(host.Pos), Tag: reflect.StructTag(sb.String())})
+			if sp := host.Pos.Split; sp > 0 && sp < len(host.Pos.Args) {
+				p1 := &Positional{Args: host.Pos.Args[:sp]}
+				p2 := &Positional{Args: host.Pos.Args[sp:]}
+				fs = append(fs, reflect.StructField{Name: host.Pos.Field, Type: posStructType(p1), Tag: reflect.StructTag(sb.String())})
+				fs = append(fs, reflect.StructField{Name: host.Pos.Field + "B", Type: posStructType(p2), Tag: reflect.StructTag(sb.String())})
+			} else {
+				fs = append(fs, reflect.StructField{Name: host.Pos.Field, Type: posStructType(host.Pos), Tag: reflect.StructTag(sb.String())})
+			}
 		}
 		for i := range host.Cmds {
 			c := &host.Cmds[i]
@@ -716,7 +740,10 @@ func (bl *builder) bindGroup(cmdID, path string, g *Group, v reflect.Value, host
 	if host != nil {
 		if host.Pos != nil {
 			pv := v.FieldByName(host.Pos.Field)
-			for _, a := range host.Pos.Args {
+			for i, a := range host.Pos.Args {
+				if sp := host.Pos.Split; sp > 0 && sp < len(host.Pos.Args) && i >= sp {
+					pv = v.FieldByName(host.Pos.Field + "B")
+				}
 				b.PosVal[host.ID+"/"+a.Field] = pv.FieldByName(a.Field)
 			}
 		}
@@ -741,6 +768,26 @@ func (bl *builder) initOpt(o *Opt, f reflect.Value) {
 		return
 	case KFuncI:
 		f.Set(reflect.ValueOf(func(n int) { b.CbLog = append(b.CbLog, CbEntry{Opt: id, Arg: n}) }))
+		return
+	case KFunc0E:
+		fail := o.CbErr
+		f.Set(reflect.ValueOf(func() error {
+			b.CbLog = append(b.CbLog, CbEntry{Opt: id})
+			if fail {
+				return ErrCallbackSentinel
+			}
+			return nil
+		}))
+		return
+	case KFuncSE:
+		fail := o.CbErr
+		f.Set(reflect.ValueOf(func(s string) error {
+			b.CbLog = append(b.CbLog, CbEntry{Opt: id, Arg: s})
+			if fail {
+				return ErrCallbackSentinel
+			}
+			return nil
+		}))
 		return
 	}
 	if o.Initial == nil {
